@@ -139,6 +139,8 @@ class FMMULock:
             fcntl.lockf(self.fd, fcntl.LOCK_UN)
 
     def get_next_addr(self):
+        if (self.base_addr + (1 << 12)) >> 22 != self.base_addr >> 22:
+            raise RuntimeError('no FMMU addresses left for this process')
         self.base_addr += 1 << 12
         return self.base_addr
 
